@@ -826,6 +826,7 @@ func run(c *rig.Ctx) {
 		sel = []string{"cpu_instrs/individual/", "cpu_instrs/cpu_instrs.gb", "instr/daa", "bits/reg_f", "bits/mem_oam"}
 	}
 	romrun.FollowROMs(c, "roms", romrun.Select(sel...), romrun.FollowOpts{Props: []string{"C01"}, Verdict: true, MemEvery: 64})
+	traceTwin(c)
 }
 
 // finish runs in the parent: union of the opcodes retired under the lock-step monitor.
